@@ -71,7 +71,10 @@ Inductive case :=
 (* the hand-over of one whole sync: consensus.NewState on the state and store the node had at
    start, block sync against scripted peers, then the blockchain reactor's own call of the real
    consensus Reactor.SwitchToConsensus *)
-| CHand (vals : list (Z * Z * Z)) (chain ih : Z)
+| CHand (vals0 vals1 : list (Z * Z * Z) * list (Z * Z * Z))
+        (* (LastValidators, Validators) of the state at node start and of the state the node saved
+           last: the set that signed the last block and the set of the next height *)
+        (chain ih : Z)
         (h0 h1 : Z)                (* State.LastBlockHeight at node start / of the state the node saved
                                       last (the top of its block store) *)
         (seen0 seen1 : option ((Z * Z * Z) * (Z * Z * Z * Z) * list slott))
@@ -248,10 +251,11 @@ Definition mk_commit (d : cdescr) : commit isig :=
   let '((ch, cr, cb), base, sigs) := d in
   {| c_height := ch; c_round := cr; c_bid := cb; c_sigs := map (mk_cs base) sigs |}.
 
-Definition check_hand (vals : list (Z * Z * Z)) (chain ih h0 h1 : Z) (seen0 seen1 : option cdescr)
+Definition check_hand (vals0 vals1 : list (Z * Z * Z) * list (Z * Z * Z)) (chain ih h0 h1 : Z)
+           (seen0 seen1 : option cdescr)
            (verified : bool) (obs : N * N * Z * Z * N * bool * N) : list verdict :=
   let '(start, sres, hs, sh, lcc, running, ho) := obs in
-  let vs := map mk_val vals in
+  let vs := map mk_val (fst vals1) in          (* the set that signed the last stored block *)
   let failed := (start =? 1)%N || (sres =? 1)%N || (ho =? 1)%N in
   let known :=
     match seen1 with
@@ -274,10 +278,12 @@ Definition check_hand (vals : list (Z * Z * Z)) (chain ih h0 h1 : Z) (seen0 seen
     end in
   let store0 := entry h0 seen0 in
   let store1 := if h1 =? h0 then store0 else entry h1 seen1 ++ store0 in
-  let st h := {| st_chain := chain; st_height := h; st_vals := vs; st_last_vals := vs; st_tag := 0 |} in
-  let m := match new_state ideal_verify pk_addr_i ih store0 (st h0) with
+  let st h (v : list (Z * Z * Z) * list (Z * Z * Z)) :=
+    {| st_chain := chain; st_height := h; st_vals := map mk_val (snd v);
+       st_last_vals := map mk_val (fst v); st_tag := 0 |} in
+  let m := match new_state ideal_verify pk_addr_i ih store0 (st h0 vals0) with
            | None => None
-           | Some cs0 => Some (switch_to_consensus ideal_verify pk_addr_i ih store1 cs0 (st h1))
+           | Some cs0 => Some (switch_to_consensus ideal_verify pk_addr_i ih store1 cs0 (st h1 vals1))
            end in
   let m_sres : N := match m with Some (Some _) => 0%N | Some None => 1%N | None => 3%N end in
   let m_sh : Z := match m with Some (Some cs') => cs_height cs' | _ => -1 end in
@@ -373,8 +379,8 @@ Definition check (c : case) : verdict :=
   match c with
   | CStep vals chain st_h first canon cm base sigs p1 p2 comp obs sw =>
     first_of (check_step vals chain st_h first canon cm base sigs p1 p2 comp obs sw)
-  | CHand vals chain ih h0 h1 seen0 seen1 verified obs =>
-    first_of (check_hand vals chain ih h0 h1 seen0 seen1 verified obs)
+  | CHand vals0 vals1 chain ih h0 h1 seen0 seen1 verified obs =>
+    first_of (check_hand vals0 vals1 chain ih h0 h1 seen0 seen1 verified obs)
   | CScen canon start stored tip peers nbad switched ho sc =>
     first_of (check_scen canon start stored tip peers nbad switched ho sc)
   | CPool start ops snap => first_of (check_pool start ops snap)
